@@ -239,14 +239,16 @@ write("C03", c03, ["the sequential reference is computed by the same harness on 
       ["more than one login or more than two sessions in flight", "weak-memory effects (Go's memory model gives SC for race-free programs)"], site_prefix="c03.")
 
 # ---- C07
-write("C07", [run("sshd-framing", SL, "VerifC07SyslogFraming", q({"M": 6}, preempt=0), t({"M": 12}, preempt=0), reach=["c07.sshd.delivered"],
+write("C07", [run("sshd-framing", SL, "VerifC07SyslogFraming", q({"M": 6}, preempt=0), t({"M": 9}, preempt=0), reach=["c07.sshd.delivered"], no_init_extra=True,
                   bounds="'<pid 1..3 digits> <0..2 extra spaces><message 1..M bytes, any byte but newline, not starting with a space>\\\\n' through the real named-pipe and syslog ingesters"),
+              run("sshd-long-record", SL, "VerifC07LongRecord", q({"L": 4100}, preempt=0, max_steps=30000000), t({"L": 9000}, preempt=0, max_steps=60000000), reach=["c07.long.delivered"], no_init_extra=True,
+                  bounds="a short line followed by '<pid> <message of L+3 bytes>\\n' (first two and last byte symbolic, the rest concrete filler): longer than bufio's 4096-byte buffer"),
               run("audit-line", AUD, "VerifC07AuditLine", {"params": {"T": 4}, "preempt": 0}, {"params": {"T": 8}, "preempt": 0}, reach=["c07.audit.parsed"],
                   bounds="type in {LOGIN, CRED_DISP, USER_END}, two symbolic digits of seconds and of sequence, 3 millisecond digits, tail of T symbolic bytes; with and without the trailing newline"),
               run("audit-empty-line", AUD, "VerifC07AuditEmptyLine", {"params": {}, "preempt": 0}, None, reach=["c07.audit.empty"], bounds="the empty line")],
       ["sshd half is compositional: the ingester is shown to hand exactly (pid, message) to the processor; the processor is a function of that pair, so events and forwarded logins are those of the direct call (the processor is checked under C05/C06/C11/C17)",
        "audit half runs go-libaudit's real ParseLogLine / Reassembler from their source; FIFO model as in C12; rsyslog's '%msg%\\\\n' framing is an assumption of the model"],
-      ["messages longer than M bytes", "the kernel FIFO and rsyslog themselves", "compound audit events (several records per event)"], site_prefix="c07.",
+      ["messages longer than M bytes with arbitrary content (one long message with concrete filler is covered)", "the kernel FIFO and rsyslog themselves", "compound audit events (several records per event)"], site_prefix="c07.",
       init_extra=["github.com/elastic/go-libaudit/v2/auparse", "github.com/elastic/go-libaudit/v2"])
 
 # ---- C15
